@@ -579,7 +579,9 @@ func (s ustate) after(o op) ustate {
 var bases = map[string]func() ustate{
 	"empty": emptyState,
 	"rich": func() ustate {
-		return stateWith("se-a", "se-a2", "se-b", "vs-a", "dr-a", "dr-a-root", "dr-w", "tel-otel", "gateway", "vs-gw", "pa-ns1", "authz", "reqauth", "telemetry", "envoyfilter", "se-w", "we-w", "k8s-svc", "k8s-pod", "k8s-pod2", "k8s-slice", "k8s-hl", "k8s-hl-slice", "dr-a2")
+		// (without dr-a2: deleting dr-a hands a.example.com over to the root-namespace rule; the scoped base
+		// has the merged pair dr-a + dr-a2)
+		return stateWith("se-a", "se-a2", "se-b", "vs-a", "dr-a", "dr-a-root", "dr-w", "tel-otel", "gateway", "vs-gw", "pa-ns1", "authz", "reqauth", "telemetry", "envoyfilter", "se-w", "we-w", "k8s-svc", "k8s-pod", "k8s-pod2", "k8s-slice", "k8s-hl", "k8s-hl-slice")
 	},
 	"scoped": func() ustate {
 		return stateWith("se-a", "se-a2", "se-b", "vs-a", "dr-a", "dr-a-root", "dr-w", "tel-otel", "sidecar-ns1", "gateway", "vs-gw", "pa-ns1", "authz", "reqauth", "telemetry", "envoyfilter", "se-w", "we-w", "k8s-svc", "k8s-pod", "k8s-pod2", "k8s-slice", "k8s-hl", "k8s-hl-slice", "dr-a2")
